@@ -235,3 +235,24 @@ Proof.
   assert (S : sec_count s (lower l a w2) = sec_count s w2) by (destruct s; reflexivity). rewrite E4, S, E3.
   destruct s; reflexivity.
 Qed.
+
+Theorem mono_add_question l a qn qt qc : mono l a (add_question qn qt qc).
+Proof.
+  intros w x w'. unfold add_question. change (w_section (lower l a w)) with (w_section w).
+  change (w_qd (lower l a w)) with (w_qd w).
+  destruct (w_section w); try discriminate. destruct (checked_add16 (w_qd w) 1) as [nq|]; [|discriminate].
+  unfold with_rollback.
+  destruct (write_unhinted_name qn w) as [[pr w1]|[e w1]|] eqn:E1; cbn [bind]; try discriminate.
+  set (w1q := if (w_qd w1 =? 0)%N then set_qname w1 pr else w1).
+  destruct (try_push_u16 qt w1q) as [[u2 w2]|[e w2]|] eqn:E2; cbn [bind]; try discriminate.
+  destruct (try_push_u16 qc w2) as [[u3 w3]|[e w3]|] eqn:E3; cbn [bind]; try discriminate.
+  intros H; inversion H; subst.
+  destruct (mono_unhinted l a _ _ _ _ E1) as [A1 L1]. destruct (mono_u16 l a _ _ _ _ E2) as [A2 L2].
+  destruct (mono_u16 l a _ _ _ _ E3) as [A3 L3].
+  assert (C1 : w_cursor w1q = w_cursor w1) by (unfold w1q; destruct (w_qd w1 =? 0)%N; reflexivity).
+  cbn [w_cursor set_rr_start set_counts]. split; [lia|]. intros Ha.
+  rewrite L1 by lia. cbn [bind].
+  assert (Q : (if (w_qd (lower l a w1) =? 0)%N then set_qname (lower l a w1) pr else lower l a w1) = lower l a w1q).
+  { unfold w1q. change (w_qd (lower l a w1)) with (w_qd w1). destruct (w_qd w1 =? 0)%N; reflexivity. }
+  rewrite Q. rewrite L2 by lia. cbn [bind]. rewrite L3 by lia. cbn [bind]. reflexivity.
+Qed.
